@@ -165,6 +165,10 @@ pub fn sync_calls(hist: &History) -> BTreeMap<u16, Vec<SyncCall<'_>>> {
             }
         }
     }
+    // an id can be opened, closed and opened again by different threads: issue order is time order
+    for v in by_ch.values_mut() {
+        v.sort_by_key(|c| c.invoke);
+    }
     by_ch
 }
 
@@ -193,7 +197,15 @@ fn reply_matches(want: &Want, m: &AMQPClass) -> bool {
 /// C04: every synchronous call returned exactly the values of the reply the broker
 /// generated for that call on that channel, after that reply was on the wire.
 pub fn rpc_oracle(rep: &mut CaseReport, hist: &History, broker: &Broker) {
-    let calls = sync_calls(hist);
+    rpc_oracle_skip(rep, hist, broker, &[])
+}
+
+/// Same, leaving out channels whose calls are expected to fail (closed by the server).
+pub fn rpc_oracle_skip(rep: &mut CaseReport, hist: &History, broker: &Broker, skip: &[u16]) {
+    let mut calls = sync_calls(hist);
+    for s in skip {
+        calls.remove(s);
+    }
     // broker replies per channel in wire order
     let mut replies: BTreeMap<u16, Vec<&SentRec>> = BTreeMap::new();
     for s in &broker.sent {
@@ -268,6 +280,9 @@ pub fn rpc_oracle(rep: &mut CaseReport, hist: &History, broker: &Broker) {
     }
     // nowait calls must have returned Ok without any reply: they are in the history as Unit
     for o in &hist.ops {
+        if skip.contains(&o.ch_id) {
+            continue;
+        }
         let nowait = match &o.op {
             Op::QueueDeclare { mode, .. } | Op::ExchangeDeclare { mode, .. } => *mode == Mode::Nowait,
             Op::QueueBind { nowait, .. } | Op::QueuePurge { nowait, .. } | Op::QueueDelete { nowait, .. } | Op::ExchangeBind { nowait, .. } | Op::ExchangeUnbind { nowait, .. } | Op::ExchangeDelete { nowait, .. } | Op::ConfirmSelect { nowait } => *nowait,
@@ -475,6 +490,10 @@ pub fn publish_oracle(rep: &mut CaseReport, c2s: &[u8], hist: &History, frame_ma
 
 /// C03: inbound content reaches its addressee exactly once, intact, in order.
 pub fn inbound_oracle(rep: &mut CaseReport, hist: &History, broker: &Broker) {
+    inbound_oracle_skip(rep, hist, broker, &[])
+}
+
+pub fn inbound_oracle_skip(rep: &mut CaseReport, hist: &History, broker: &Broker, skip: &[u16]) {
     // consumers: (thread, slot) -> tag, channel; drained results
     let mut threads: BTreeMap<usize, Vec<&OpRec>> = BTreeMap::new();
     for o in &hist.ops {
@@ -501,6 +520,9 @@ pub fn inbound_oracle(rep: &mut CaseReport, hist: &History, broker: &Broker) {
                     continue;
                 }
                 let key = tags[*slot].clone();
+                if skip.contains(&key.0) || key.1.is_empty() {
+                    continue;
+                }
                 let sent = sent_per.get(&key).cloned().unwrap_or_default();
                 rep.count("c03.consumers_checked", 1);
                 rep.count("c03.deliveries_compared", sent.len() as u64);
@@ -537,6 +559,9 @@ pub fn inbound_oracle(rep: &mut CaseReport, hist: &History, broker: &Broker) {
         }
     }
     for (ch, cs) in &calls {
+        if skip.contains(ch) {
+            continue;
+        }
         let rs = replies.get(ch).cloned().unwrap_or_default();
         for (i, c) in cs.iter().enumerate() {
             if c.want != Want::Get {
